@@ -12,6 +12,6 @@ require (
 	github.com/mailru/easyjson v0.7.7 // indirect
 )
 
-replace github.com/philpearl/plenc => /tmp/mx.2BFvmY
+replace github.com/philpearl/plenc => /tmp/mx.HfSS5i
 
 replace github.com/unravelin/null => github.com/unravelin/null/v4 v4.2.0
